@@ -225,38 +225,8 @@ mod proofs {
 		assert!(wf(&a.level_bbox[z], z));
 	}
 
-	// every well-formed pyramid whose levels other than z1 and z2 are empty in the `new_empty` encoding
-	fn sparse_pyramid(z1: usize, z2: usize) -> TileBBoxPyramid {
-		let mut p = TileBBoxPyramid::new_empty();
-		for z in [z1, z2] {
-			let b = &mut p.level_bbox[z];
-			b.x_min = kani::any(); b.y_min = kani::any(); b.x_max = kani::any(); b.y_max = kani::any();
-			kani::assume(b.x_max <= b.max && b.y_max <= b.max);
-		}
-		p
-	}
-	fn include_bbox_pyramid_check(z1: usize, z2: usize) {
-		let mut a = any_pyramid(); let b = sparse_pyramid(z1, z2);
-		let old = a.clone();
-		a.include_bbox_pyramid(&b);
-		let (z, x, y) = probe();
-		let o = &old.level_bbox[z]; let n = &b.level_bbox[z];
-		let expect = if empty(n) { has(o, x, y) } else if empty(o) { has(n, x, y) } else {
-			x >= o.x_min.min(n.x_min) && x <= o.x_max.max(n.x_max) && y >= o.y_min.min(n.y_min) && y <= o.y_max.max(n.y_max) };
-		assert!(has(&a.level_bbox[z], x, y) == expect);
-		assert!(wf(&a.level_bbox[z], z));
-	}
-	// (the harness over two fully symbolic 32-level pyramids ended with a CBMC resource failure at 12, 24 and 46 GB: the level-wise law is
-	// `pyr_include_bbox` below, complete; this one exercises the loop of include_bbox_pyramid over iter_levels)
-	// harness: kind=bounded bound="receiver: any well-formed pyramid; argument: any pyramid whose non-empty levels are among {0, 31}" tier=thorough props=C15,C03,C08 fn=TileBBoxPyramid::include_bbox_pyramid,TileBBoxPyramid::iter_levels timeout=3000 mem=24
-	#[kani::proof]
-	#[kani::unwind(34)]
-	fn pyr_include_bbox_pyramid_levels_0_31() { include_bbox_pyramid_check(0, 31); }
-	// harness: kind=bounded bound="receiver: any well-formed pyramid; argument: any pyramid whose non-empty levels are among {7, 8}" tier=thorough props=C15,C03,C08 fn=TileBBoxPyramid::include_bbox_pyramid,TileBBoxPyramid::iter_levels timeout=3000 mem=24
-	#[kani::proof]
-	#[kani::unwind(34)]
-	fn pyr_include_bbox_pyramid_levels_7_8() { include_bbox_pyramid_check(7, 8); }
-
+	// (include_bbox_pyramid: CBMC ended with a resource failure for two symbolic pyramids at 12, 24 and 46 GB, and also for an argument with
+	// only two non-empty levels; the method is proved by Verus in unit pyramid_real instead, the level-wise law is `pyr_include_bbox` below)
 	// harness: kind=complete why="32 levels is the constant MAX_ZOOM_LEVEL" tier=thorough props=C15,C03,C08 fn=TileBBoxPyramid::include_bbox timeout=1800 mem=24
 	#[kani::proof]
 	#[kani::unwind(34)]
